@@ -33,7 +33,7 @@ NoneV == 9                \* Retry.redirect = None
 ConnectSyms == {"c_refused", "c_timeout", "c_boom"}
 SendSyms    == {"s_epipe", "s_reset", "s_oserr", "s_boom"}
 RecvSyms    == {"r_timeout", "r_reset", "r_eof", "r_garbage", "r_ssl", "r_boom"}
-ReplySyms   == {"ok_ka", "ok_close", "s503_ka", "s503_close", "r302_ka", "r302_close", "short", "chunk_trunc",
+ReplySyms   == {"ok_ka", "ok_close", "s503_ka", "s503_close", "r302_ka", "r302_close", "short",
                 "b_boom", "b_reset", "b_timeout"}
 AllSyms     == ConnectSyms \cup SendSyms \cup RecvSyms \cup ReplySyms \cup {"x_stale"}
 
@@ -109,12 +109,16 @@ WBodyFail(w, k) ==
 ReadAll(w, k) ==
     LET r == w.rs[k] IN
     IF ~r.fp THEN [w |-> WRelease(w, k), out |-> "ok"]
-    ELSE IF r.fault = "none" THEN [w |-> WRelease([w EXCEPT !.rs[k].fp = FALSE, !.rs[k].ker = FALSE], k), out |-> "ok"]
+    ELSE IF r.fault = "none" THEN [w |-> WRelease([w EXCEPT !.rs[k].fp = FALSE, !.rs[k].ker = FALSE, !.rs[k].rem = FALSE], k),
+                                   out |-> "ok"]
     ELSE [w |-> WBodyFail(w, k), out |-> BodyErr(r.fault)]
 
 \* read(2) then release_conn()
 Read2Rel(w, k) ==
     LET r == w.rs[k] IN
+    \* the body was cut short under the caller (connection reclaimed at a later checkout): read(amt) on the closed
+    \* file object finds length_remaining > 0 -> IncompleteRead -> ProtocolError
+    IF ~r.fp /\ r.rem THEN [w |-> WBodyFail(w, k), out |-> "ProtocolError"] ELSE
     \* read(2) finds the end of the body: _error_catcher releases; the explicit release_conn() is then a no-op
     IF ~r.fp \/ r.len0 THEN [w |-> WRelease(WRelease([w EXCEPT !.rs[k].fp = FALSE], k), k), out |-> "ok"]
     ELSE IF r.fault \in {"none", "short"} THEN [w |-> WRelease([w EXCEPT !.rs[k].ker = FALSE], k), out |-> "ok"]
@@ -224,9 +228,9 @@ Send ==
     /\ UNCHANGED <<cfg, queue, conns, socks, resp, rof, cur, plan, att, ret, clean, rel, pend, rcur, nd, outs, hist, ncut>>
 
 IsClose(sym) == sym \in {"ok_close", "s503_close", "r302_close"}
-PeerCloses(sym) == IsClose(sym) \/ sym \in {"short", "chunk_trunc"}
+PeerCloses(sym) == IsClose(sym) \/ sym = "short"
 StatusOf(sym) == IF sym \in {"r302_ka", "r302_close"} THEN "302" ELSE IF sym \in {"s503_ka", "s503_close"} THEN "503" ELSE "200"
-FaultOf(sym) == IF sym \in {"short", "chunk_trunc"} THEN "short" ELSE IF sym \in {"b_boom", "b_reset", "b_timeout"} THEN sym ELSE "none"
+FaultOf(sym) == IF sym = "short" THEN "short" ELSE IF sym \in {"b_boom", "b_reset", "b_timeout"} THEN sym ELSE "none"
 
 (* ---- conn.getresponse(): status line + headers; http.client closes on Connection: close ---- *)
 Recv ==
@@ -248,7 +252,7 @@ Recv ==
                 k == Len(resp) + 1
                 r == [live |-> FALSE, conn |-> NONE, hc |-> cur, sock |-> s, fp |-> TRUE,
                       ker |-> ~(StatusOf(sym) = "302" \/ sym = "b_timeout"), fault |-> FaultOf(sym),
-                      len0 |-> StatusOf(sym) = "302", status |-> StatusOf(sym)]
+                      len0 |-> StatusOf(sym) = "302", rem |-> StatusOf(sym) # "302", status |-> StatusOf(sym)]
                 w1 == [w EXCEPT !.rs = Append(@, r),
                                 !.sk[s].cut = PeerCloses(sym)]
                 \* will_close: http.client closes the connection object right away (the fd lingers in the response)
